@@ -213,7 +213,7 @@ def tlc(module, cfg, workers=None, env=None, timeout=900, outfile=None, heap="4g
     keep = []
     with open(outfile, errors="replace") as f:
         for line in f:
-            if line.startswith('"{') or line.startswith('"SCHED ') or line.startswith('"LINOK '):
+            if line.startswith('"{') or line.startswith('"SCHED ') or line.startswith('"LINOK ') or line.startswith('"DOC '):
                 continue
             if len(keep) < 20000:
                 keep.append(line.rstrip("\n"))
